@@ -48,6 +48,8 @@ CONSTANTS
   Weak_NewValidBlockIgnored,              \* Receive: NewValidBlockMessage no longer applied to the peer state
   Weak_InitMarksPartsHad,                 \* InitProposalBlockParts: the fresh bit array is all ones
   Weak_VoteMarkedBeforeRoundCheck,        \* ApplyNewRoundStepMessage: Prevotes/Precommits survive a round change
+  Weak_ClaimAppliedInReceive,             \* Receive: a VoteSetMaj23 claim is put into the vote sets by the reactor itself, before the
+                                          \* reply is computed, instead of going through the peer queue (not in the WAL: a restart forgets it)
   AllowedGaps,                            \* the named gaps (GapClass below) that are exempt from GossipComplete
   Code_POLShadowedByCatchupRound          \* TRUE = the tree as it is: getVoteBitArray returns nil for prevotes of CatchupCommitRound
                                           \* before it looks at ProposalPOLRound (gap G6); FALSE = with proposed-fixes/GOSSIP-pol-shadowed.diff
@@ -344,8 +346,10 @@ Maj23Sends(n, p) ==
         THEN <<MMaj23(p.h, n.chain[p.h].r, Precommit, n.chain[p.h].v)>> ELSE << >>)
 
 \* ====================================================================== Reactor.Receive (peer -> node)
-\* [n, prs, sent]: Proposal / BlockPart / Vote are queued for consensus.State (Absorb: cs.handleMsg); claims go
-\* straight into the node's vote sets
+\* [n, prs, sent, queued]: Proposal / BlockPart / Vote AND (since the WAL repair) VoteSetMaj23 claims are queued for
+\* consensus.State (cs.peerMsgQueue -> receiveRoutine -> WAL -> handleMsg); `queued` is what Receive put on the queue.
+\* The VoteSetBits reply to a claim is computed at once from the vote sets as they are, i.e. BEFORE the claim takes
+\* effect: for a block the node has no votesByBlock entry for yet it is the empty (size 0) array.
 \* a message as an input of the receiving party's consensus.State
 ToEl(x, m) ==
   IF m.k = "Vote" THEN
@@ -359,25 +363,30 @@ ToEl(x, m) ==
 
 VoteSetTracked(n, m) == n.h = m.h /\ m.r \in n.cn.tracked
 Receive(n, p, m) ==
-  LET same(q) == [n |-> n, prs |-> q, sent |-> << >>] IN
+  LET same(q) == [n |-> n, prs |-> q, sent |-> << >>, queued |-> << >>]
+      toState(q) == [n |-> n, prs |-> q, sent |-> << >>, queued |-> <<m>>] IN
   IF m.k = "NRS" THEN same(ApplyNRS(p, m))
   ELSE IF m.k = "NVB" THEN same(ApplyNVB(p, m))
   ELSE IF m.k = "HasVote" THEN same(IF Weak_HasVoteNotRecorded \/ p.h # m.h THEN p ELSE SetHasVote(p, m.h, m.r, m.t, m.i))
   ELSE IF m.k = "Maj23" THEN
        IF n.h # m.h THEN same(p)
-       ELSE LET n1 == Absorb(n, ElClaim(m.t, m.r, m.v))
+       ELSE LET n1 == IF Weak_ClaimAppliedInReceive THEN Absorb(n, ElClaim(m.t, m.r, m.v)) ELSE n
                 ours == IF VoteSetTracked(n1, m) THEN ByBits(VS(n1, m.t, m.r), m.v) ELSE NilBA
             IN [n |-> n1, prs |-> p,
-                sent |-> <<MVSBits(m.h, m.r, m.t, m.v, IF ours = NilBA THEN {} ELSE ours, IF ours = NilBA THEN 0 ELSE NVal)>>]
+                sent |-> <<MVSBits(m.h, m.r, m.t, m.v, IF ours = NilBA THEN {} ELSE ours, IF ours = NilBA THEN 0 ELSE NVal)>>,
+                queued |-> IF Weak_ClaimAppliedInReceive THEN << >> ELSE <<m>>]
   ELSE IF m.k = "VSBits" THEN
        same(ApplyVSBits(p, m, IF VoteSetTracked(n, m) THEN ByBits(VS(n, m.t, m.r), m.v) ELSE NilBA))
-  ELSE IF m.k = "Proposal" THEN [n |-> Absorb(n, ToEl(n, m)), prs |-> ApplyProposal(p, m.h, [r |-> m.r, v |-> m.v, pol |-> m.pol]), sent |-> << >>]
+  ELSE IF m.k = "Proposal" THEN toState(ApplyProposal(p, m.h, [r |-> m.r, v |-> m.v, pol |-> m.pol]))
   ELSE IF m.k = "POL" THEN same(ApplyPOL(p, m))
-  ELSE IF m.k = "BlockPart" THEN [n |-> Absorb(n, ToEl(n, m)), prs |-> SetHasPart(p, m.h, m.r, m.i), sent |-> << >>]
+  ELSE IF m.k = "BlockPart" THEN toState(SetHasPart(p, m.h, m.r, m.i))
   ELSE IF m.k = "Vote" THEN
-       [n |-> Absorb(n, ToEl(n, m)), sent |-> << >>,
-        prs |-> SetHasVote(EnsureVBA(EnsureVBA(p, n.h, NVal), n.h - 1, IF n.cn.lastCommit.r = -1 THEN 0 ELSE NVal), m.h, m.r, m.t, m.i)]
+       toState(SetHasVote(EnsureVBA(EnsureVBA(p, n.h, NVal), n.h - 1, IF n.cn.lastCommit.r = -1 THEN 0 ELSE NVal), m.h, m.r, m.t, m.i))
   ELSE same(p)
+\* cs.handleMsg for a queued message of the peer
+Handle(n, m) == Absorb(n, ToEl(n, m))
+RECURSIVE HandleAll(_, _)
+HandleAll(n, ms) == IF ms = << >> THEN n ELSE HandleAll(Handle(n, Head(ms)), Tail(ms))
 
 \* ====================================================================== the correct peer
 \* What a correct peer does with a message of the node (its consensus.State handles Proposal / BlockPart / Vote; its
@@ -424,7 +433,8 @@ Step1(y, e) ==
 Deliver(x, m) ==
   LET s1 == Step1(x, ToEl(x, m))
       answer == IF m.k = "Maj23" /\ m.h = x.h
-                THEN LET ours == IF m.r \in s1.x.cn.tracked THEN ByBits(VS(s1.x, m.t, m.r), m.v) ELSE NilBA
+                \* (the peer's reactor: the reply is computed before its state machine handles the queued claim)
+                THEN LET ours == IF m.r \in x.cn.tracked THEN ByBits(VS(x, m.t, m.r), m.v) ELSE NilBA
                      IN <<MVSBits(m.h, m.r, m.t, m.v, IF ours = NilBA THEN {} ELSE ours, IF ours = NilBA THEN 0 ELSE NVal)>>
                 ELSE << >>
   IN [x |-> s1.x, ann |-> s1.ann \o answer]
